@@ -11,6 +11,7 @@
 XPath 2.0 implementation - part 2 (operators, expressions and multi-role tokens)
 """
 import math
+from fractions import Fraction
 import operator
 from copy import copy
 from collections.abc import Iterator
@@ -686,6 +687,10 @@ def evaluate__idiv_operator(self: XPathToken, context: ta.ContextType = None) ->
         raise self.error('XPTY0004', err) from None
 
     try:
+        if isinstance(op1, float) and isinstance(op2, float) and op2 and not math.isinf(op2):
+            # float floor division loses the last unit beyond 2**53: truncate the exact quotient
+            return int(Fraction(op1) / Fraction(op2))
+
         result = op1 // op2
         if result >= 0 or isinstance(op1, Decimal) or \
                 isinstance(op2, Decimal) or op1 % op2 == 0:
